@@ -205,6 +205,10 @@ func c16Run(s *sim.Sim, p *sim.Params) {
 	cfg := DefaultConfig()
 	cfg.MaxConnectionsPerHub = []int{0, 1, 2, 3, 4}[s.Choose(sim.SWork, 5)]
 	cfg.MaxConnectionsPerRoom = []int{0, 1, 2, 3}[s.Choose(sim.SWork, 4)]
+	hotRoomPick := s.Choose(sim.SWork, 3) == 0
+	if hotRoomPick {
+		cfg.MaxConnectionsPerRoom = 1 + s.Choose(sim.SWork, 2)
+	}
 	cfg.MessageQueueSize = 1 + s.Choose(sim.SWork, 4)
 	cfg.MessageQueueStrategy = []QueueStrategy{QueueStrategyDropOldest, QueueStrategyDropNewest, QueueStrategyBlock}[s.Choose(sim.SWork, 3)]
 	cfg.EnableHeartbeat = s.Choose(sim.SWork, 2) == 1
@@ -286,6 +290,14 @@ func c16Run(s *sim.Sim, p *sim.Params) {
 		return nil
 	})
 
+	// "hot room" runs: every join targets one room that has one or two seats, from clients
+	// (hub goroutine) and several actors (other goroutines) at once
+	hotRoom := hotRoomPick
+	rooms := c16rooms
+	if hotRoom {
+		rooms = c16rooms[:1]
+		s.Probe("hot-room-run")
+	}
 	nclients := 2 + s.Choose(sim.SWork, 5)
 	var hs []*sim.Handle
 	for ci := 0; ci < nclients; ci++ {
@@ -298,7 +310,7 @@ func c16Run(s *sim.Sim, p *sim.Params) {
 		}
 		ops := make([]op, nops)
 		for i := range ops {
-			o := op{room: c16rooms[s.Choose(sim.SWork, len(c16rooms))]}
+			o := op{room: rooms[s.Choose(sim.SWork, len(rooms))]}
 			switch r := s.Choose(sim.SWork, 24); {
 			case r < 6:
 				o.kind = "join"
@@ -403,6 +415,9 @@ func c16Run(s *sim.Sim, p *sim.Params) {
 	}
 	// actors: the public API as HTTP routes and handlers use it, from other goroutines
 	nactors := s.Choose(sim.SWork, 4)
+	if hotRoom && nactors < 2 {
+		nactors = 2 + s.Choose(sim.SWork, 2)
+	}
 	for ai := 0; ai < nactors; ai++ {
 		nops := 2 + s.Choose(sim.SWork, 8)
 		type op struct {
@@ -413,8 +428,12 @@ func c16Run(s *sim.Sim, p *sim.Params) {
 		}
 		ops := make([]op, nops)
 		for i := range ops {
-			o := op{room: c16rooms[s.Choose(sim.SWork, len(c16rooms))], pick: s.Choose(sim.SWork, 8)}
-			switch r := s.Choose(sim.SWork, 14); {
+			o := op{room: rooms[s.Choose(sim.SWork, len(rooms))], pick: s.Choose(sim.SWork, 8)}
+			r0 := s.Choose(sim.SWork, 14)
+			if hotRoom && s.Choose(sim.SWork, 2) == 0 {
+				r0 = s.Choose(sim.SWork, 5) // joins and leaves
+			}
+			switch r := r0; {
 			case r < 3:
 				o.kind = "api-join"
 			case r < 5:
